@@ -24,14 +24,14 @@ ASSUMPTIONS = [
     'overflow fragments (beyond max_associated_fragments) are emitted as their own molecules, as the iterator documents',
 ]
 
-SITE = 5000
+SITE = 5040    # chosen so that the R2 ends of the reverse-strand copies (4999 / 5004) straddle a round coordinate
 # key -> (cell, site offset, reverse)
 KEYS = {'K0': (1, 0, False), 'K1': (1, 0, True), 'K2': (2, 0, False), 'K3': (1, 1, False), 'K4': (1, 3000, False)}
 # letter = (key, umi, variant)
 LETTERS = [
     ('K0', 'AAA', 'base'), ('K0', 'AAC', 'base'), ('K0', 'ACC', 'base'), ('K0', 'NAA', 'base'),
     ('K0', 'AAA', 'r2shift'), ('K0', 'AAA', 'clip'), ('K0', 'AAA', 'error'), ('K0', 'AAC', 'r2shift'),
-    ('K1', 'AAA', 'base'), ('K1', 'AAC', 'base'), ('K1', 'AAA', 'clip'),
+    ('K1', 'AAA', 'base'), ('K1', 'AAC', 'base'), ('K1', 'AAA', 'clip'), ('K1', 'AAA', 'r2shift'),
     ('K2', 'AAA', 'base'), ('K2', 'AAC', 'base'),
     ('K3', 'AAA', 'base'), ('K3', 'AAC', 'base'),
     ('K4', 'AAA', 'base'),
@@ -212,6 +212,22 @@ def check_word(word, cls, d, cap, pooling, dup_pattern=0, second_pass=False):
                 continue
             if all(hamming(a, b) <= d for a in umis for b in umis) and len({where.get(x) for x in names}) > 1:
                 viol[f'{pre}:fragments-with-all-umis-within-distance-split'] = {'names': names, 'umis': umis, 'd': d, 'partition': part}
+    if cls == 'plain' and cap is None:
+        # plain fragments have no cut site; copies of one molecule that share their R1 anchor exactly (same key and UMI,
+        # unclipped: variants base / other R2 end / sequencing error) match through that coordinate whatever else the
+        # molecule already holds, so they can never be split
+        where = {x: gi for gi, g in enumerate(part) for x in g}
+        anchors = {}
+        for i, li in enumerate(word):
+            key, umi, variant = LETTERS[li]
+            if variant in ('base', 'r2shift', 'error'):
+                anchors.setdefault((key, umi), []).append(f'f{i}')
+        clipped_keys = {LETTERS[li][0] for li in word if LETTERS[li][2] == 'clip'}
+        for k, names in anchors.items():
+            if k[0] in clipped_keys:
+                continue      # a clipped copy matches through the OTHER coordinate; first-match assignment may then split (by design)
+            if len({where.get(x) for x in names}) > 1:
+                viol[f'{pre}:copies-sharing-their-anchor-coordinate-split'] = {'key': k, 'names': names, 'partition': part}
     # ---- tags and flags
     try:
         for m in mols:
